@@ -310,7 +310,7 @@ info = {}
 if a.tier == "exhaustive":
     info = exhaustive()
 else:
-    H = 1000 if a.tier == "quick" else 10000
+    H = 1500 if a.tier == "quick" else 10000
     for _ in range(H):
         random_history()
     info = {"histories": H}
